@@ -350,7 +350,7 @@ def strip_container_ids(t):
     return dict(t, id=-1, ch=[strip_container_ids(c) for c in t['ch']])
 
 
-def inspect_case(spec, cfg=None):
+def inspect_case(spec, cfg=None, modes=()):
     """every inspection method of one treespec"""
     n = spec.num_children
 
@@ -365,7 +365,8 @@ def inspect_case(spec, cfg=None):
     o = {
         'num_leaves': spec.num_leaves, 'num_nodes': spec.num_nodes, 'num_children': spec.num_children, 'len': len(spec),
         'kind': int(spec.kind), 'type': 0 if ty is None else 100 if ty is type(None) else type_tag(ty),
-        'is_leaf': spec.is_leaf(), 'is_strict_leaf': spec.is_leaf(strict=True) and optree.treespec_is_strict_leaf(spec),
+        'is_leaf': spec.is_leaf(strict=False) and optree.treespec_is_leaf(spec, strict=False),
+        'is_strict_leaf': spec.is_leaf(strict=True) and optree.treespec_is_strict_leaf(spec) and optree.treespec_is_leaf(spec) and spec.is_leaf(),
         'is_one_level': spec.is_one_level(),
         'paths': [proj_path(p) for p in spec.paths()], 'accs': [proj_acc(a) for a in spec.accessors()],
         'entries': [U.proj_key(e) for e in spec.entries()],
@@ -374,6 +375,58 @@ def inspect_case(spec, cfg=None):
         'child': [idx(spec.child, i, U.project_spec) for i in range(-n - 1, n + 1)],
         'entry': [idx(spec.entry, i, U.proj_key) for i in range(-n - 1, n + 1)],
     }
+    import re
+    o['repr'] = re.sub(r' at 0x[0-9a-f]+', '', repr(spec))
+    o['str_is_repr'] = str(spec) == repr(spec)
+    # rebuilding the root from its one-level spec and its children
+    routes = []
+    if ol is not None:
+        kids = spec.children()
+        nil, ns = spec.none_is_leaf, spec.namespace
+        kw = dict(none_is_leaf=nil, namespace=ns)
+        ents = spec.entries()
+
+        def via_transform():
+            it = iter(kids)
+            return ol.transform(None, lambda _leaf: next(it))
+
+        def via_collection():
+            return optree.treespec_from_collection(optree.tree_unflatten(ol, kids), **kw)
+
+        def via_named():
+            k = int(spec.kind)
+            if k == U.NTUPLE:
+                return optree.treespec_tuple(kids, **kw)
+            if k == U.NLIST:
+                return optree.treespec_list(kids, **kw)
+            if k == U.NDICT:
+                return optree.treespec_dict(dict(zip(ents, kids)), **kw)
+            if k == U.NODICT:
+                return optree.treespec_ordereddict(U.OrderedDict(zip(ents, kids)), **kw)
+            if k == U.NDDICT:
+                fac = spec.__getstate__()[0][-1][2][0]
+                return optree.treespec_defaultdict(fac, dict(zip(ents, kids)), **kw)
+            if k == U.NDEQUE:
+                return optree.treespec_deque(kids, maxlen=spec.__getstate__()[0][-1][2], **kw)
+            if k == U.NNT:
+                return optree.treespec_namedtuple(spec.type(*kids), **kw)
+            if k == U.NSS:
+                return optree.treespec_structseq(spec.type(tuple(kids)), **kw)
+            if k == U.NNONE:
+                return optree.treespec_none(**kw)
+            return None     # custom: only through from_collection / transform
+        for name, fn in (('transform', via_transform), ('from_collection', via_collection), ('constructor', via_named),
+                         ('transform(id,id)', lambda: spec.transform(lambda x: x, lambda x: x)),
+                         ('treespec_transform(None,None)', lambda: optree.treespec_transform(spec))):
+            try:
+                with U.modes(modes):       # constructors read the dict-order mode: rebuild under the mode the spec was made in
+                    r = fn()
+                if r is not None:
+                    routes.append({'route': name, 'err': '', 'spec': U.project_spec(r), 'paths': [proj_path(p) for p in r.paths()],
+                                   'eq': r == spec and hash(r) == hash(spec)})
+            except Exception as ex:   # noqa: BLE001
+                routes.append({'route': name, 'err': U.exc_class(ex), 'msg': str(ex)[:200]})
+    o['routes'] = routes
     return {'op': 'inspect', 'spec': U.project_spec(spec), 'out': o}
 
 
@@ -409,7 +462,7 @@ def work(line):
                 except Exception:  # noqa: BLE001
                     spec = None
             if spec is not None:
-                out.append(inspect_case(spec))
+                out.append(inspect_case(spec, cfg, cfg['modes']))
     if 'hist' in item:
         for c in out:
             c['hist'] = item['hist']
